@@ -158,3 +158,123 @@ Fixpoint plug (n : node) (p : path) (new : node) : option node :=
       end
     end
   end.
+
+(* ---- structural list edits --------------------------------------------------------------------------- *)
+Definition splice {A} (T : list A) (pos : nat) (M : list A) : list A := firstn pos T ++ M ++ skipn pos T.
+Definition cut {A} (T : list A) (a b : nat) : list A := firstn a T ++ skipn b T.
+(* the position just after the last token of the unit u in T *)
+Definition after_unit (T u : list tk) : option nat :=
+  match rev u with [] => None | z :: _ => option_map S (find_off z T) end.
+(* the child before item i of a Repeated: the previous item, or the placeholder *)
+Definition prev_unit (ph : tk) (items : list node) (i : nat) : list tk :=
+  match i with
+  | O => [ph]
+  | S j => match nth_error items j with Some y => node_toks y | None => [] end
+  end.
+
+(* RepeatedNodeWrapper._insert_tokens, one value. In general the separators and the new item's tokens go
+   right after the previous item (or after the placeholder when the list is empty) ... *)
+Definition rep_insert_A (rs : Z) (rt : list tk) (ph : tk) (items : list node) (i : nat)
+           (seps : list tk) (y : node) : option slot :=
+  if Nat.leb i (length items) then
+    match after_unit rt (prev_unit ph items i) with
+    | Some pos => Some (SRep rs (splice rt pos (seps ++ node_toks y)) ph (firstn i items ++ y :: skipn i items))
+    | None => None
+    end
+  else None.
+(* ... but at index 0 of a non-empty list the item goes right before the old first item, FOLLOWED by
+   the separators (the tokens before the first item, `separators_before`, stay where they are) *)
+Definition rep_insert_B (rs : Z) (rt : list tk) (ph : tk) (z : node) (rest : list node)
+           (seps : list tk) (y : node) : option slot :=
+  match node_toks z with
+  | [] => None
+  | x :: _ =>
+    match find_off x rt with
+    | Some pos => Some (SRep rs (splice rt pos (node_toks y ++ seps)) ph (y :: z :: rest))
+    | None => None
+    end
+  end.
+Definition rep_insert (rs : Z) (rt : list tk) (ph : tk) (items : list node) (i : nat)
+           (seps : list tk) (y : node) : option slot :=
+  match i, items with
+  | O, z :: rest => rep_insert_B rs rt ph z rest seps y
+  | _, _ => rep_insert_A rs rt ph items i seps y
+  end.
+
+(* RepeatedNodeWrapper._del_tokens, one item (pop / __delitem__). In general everything from just after
+   the previous item (or the placeholder) up to the end of item i leaves: the separators before it and the item ... *)
+Definition rep_remove_A (rs : Z) (rt : list tk) (ph : tk) (items : list node) (i : nat) : option (node * slot) :=
+  match nth_error items i with
+  | Some x =>
+    match after_unit rt (prev_unit ph items i), after_unit rt (node_toks x) with
+    | Some a, Some b => Some (x, SRep rs (cut rt a b) ph (firstn i items ++ skipn (S i) items))
+    | _, _ => None
+    end
+  | None => None
+  end.
+(* ... but the first of several items leaves together with the separators AFTER it (up to the next item) *)
+Definition rep_remove_B (rs : Z) (rt : list tk) (ph : tk) (x z : node) (rest : list node) : option (node * slot) :=
+  match node_toks x, node_toks z with
+  | tx :: _, tz :: _ =>
+    match find_off tx rt, find_off tz rt with
+    | Some a, Some b => Some (x, SRep rs (cut rt a b) ph (z :: rest))
+    | _, _ => None
+    end
+  | _, _ => None
+  end.
+Definition rep_remove (rs : Z) (rt : list tk) (ph : tk) (items : list node) (i : nat) : option (node * slot) :=
+  match i, items with
+  | O, x :: z :: rest => rep_remove_B rs rt ph x z rest
+  | _, _ => rep_remove_A rs rt ph items i
+  end.
+
+Definition with_rep (n : node) (f : string) (sl' : slot) : option node :=
+  match n, sl' with
+  | Tree c s T kids d, SRep _ rt' _ _ =>
+    match kid kids f with
+    | Some (SRep _ rt _ _) =>
+      match replace_infix rt rt' T with
+      | Some T' => Some (Tree c s T' (set_kid kids f sl') d)
+      | None => None
+      end
+    | _ => None
+    end
+  | _, _ => None
+  end.
+Definition node_rep (n : node) (f : string) : option (Z * list tk * tk * list node) :=
+  match n with
+  | Tree _ _ _ kids _ => match kid kids f with Some (SRep rs rt ph items) => Some (rs, rt, ph, items) | _ => None end
+  | Leaf _ => None
+  end.
+
+Definition insert_item_at (n : node) (f : string) (i : nat) (seps : list tk) (y : node) : option node :=
+  match node_rep n f with
+  | Some (rs, rt, ph, items) =>
+    match rep_insert rs rt ph items i seps y with Some sl' => with_rep n f sl' | None => None end
+  | None => None
+  end.
+Definition remove_item_at (n : node) (f : string) (i : nat) : option (node * node) :=
+  match node_rep n f with
+  | Some (rs, rt, ph, items) =>
+    match rep_remove rs rt ph items i with
+    | Some (x, sl') => match with_rep n f sl' with Some n' => Some (x, n') | None => None end
+    | None => None
+    end
+  | None => None
+  end.
+
+(* at the node selected by p *)
+Definition insert_item (root : node) (p : path) (f : string) (i : nat) (seps : list tk) (y : node) : option node :=
+  match select root p with
+  | Some old => match insert_item_at old f i seps y with Some new => plug root p new | None => None end
+  | None => None
+  end.
+Definition remove_item (root : node) (p : path) (f : string) (i : nat) : option (node * node) :=
+  match select root p with
+  | Some old =>
+    match remove_item_at old f i with
+    | Some (x, new) => match plug root p new with Some root' => Some (x, root') | None => None end
+    | None => None
+    end
+  | None => None
+  end.
